@@ -19,7 +19,8 @@
    that one run reports every bad coordinate.                                              *)
 EXTENDS Naturals, Sequences, TLC, Json, FiniteSets, IOUtils
 Traces == JsonDeserialize(IOEnv.TRACES)
-CONSTANT CheckCoords
+CONSTANTS CheckCoords,   \* evaluate CoordOK at every END
+          EmitSpans      \* print <<"SPAN", tid, node, first, last>> for every matched expression node (C17)
 VARIABLES tid, pos, stk
 vars == <<tid, pos, stk>>
 D == Traces[tid]
@@ -120,10 +121,10 @@ StmtObl(n) ==
     [] K(n) = "Return" -> << V("return") >> \o (IF C(n).expr = 0 THEN <<>> ELSE << E(C(n).expr, 1) >>) \o << V(";") >>
     [] K(n) = "EmptyStatement" -> << V(";") >>
     [] K(n) = "Pragma" -> IF TV(pos) = "_Pragma"
-                          THEN << V("_Pragma"), V("("), E(C(n).string, 17), V(")") >>
+                          THEN << V("_Pragma"), V("("), <<"STR", C(n).string, "">>, V(")") >>
                           ELSE << V("pragma") >> \o (IF A(n).string = "" THEN <<>> ELSE << V(A(n).string) >>)
     [] K(n) = "StaticAssert" -> << V("_Static_assert"), V("("), E(C(n).cond, 3) >>
-                                \o (IF C(n).message = 0 THEN <<>> ELSE << V(","), E(C(n).message, 17) >>) \o << V(")") >>
+                                \o (IF C(n).message = 0 THEN <<>> ELSE << V(","), <<"STR", C(n).message, "">> >>) \o << V(")") >>
     [] OTHER -> << E(n, 1), V(";") >>
 
 IsDeclNode(n) == K(n) \in {"Decl","Typedef"}
@@ -146,7 +147,11 @@ Str   == /\ Tag = "STR" /\ TT(pos) \in StringTypes
 \* ---- statements and lists
 \* a Compound in statement position is a block, or - when the next token is '(' - a GNU statement
 \* expression used as an expression statement
-Stmt  == /\ Tag = "S" /\ ~(K(Top[2]) = "Compound" /\ TV(pos) = "(")
+\* a Compound that does not start with '{' is the wrapper pycparser puts around "#pragma ... statement"
+\* in sub-statement position (c_parser: pragmacomp_or_statement): its items follow without braces
+PragmaWrap == /\ Tag = "S" /\ K(Top[2]) = "Compound" /\ TV(pos) \notin {"{", "("}
+              /\ stk' = << <<"IL", C(Top[2]).block_items, 1>> >> \o Rest /\ UNCHANGED pos
+Stmt  == /\ Tag = "S" /\ ~(K(Top[2]) = "Compound" /\ TV(pos) # "{")
          /\ stk' = (IF K(Top[2]) \in {"Compound","If","While","DoWhile","For","Switch","Case","Default","Label","Goto","Break","Continue","Return","EmptyStatement","Pragma","StaticAssert"} THEN StmtObl(Top[2]) \o << <<"END", Top[2], pos>> >> ELSE StmtObl(Top[2])) \o Rest /\ UNCHANGED pos
 StmtExpr == /\ Tag = "S" /\ K(Top[2]) = "Compound" /\ TV(pos) = "("
             /\ stk' = << E(Top[2], 1), V(";") >> \o Rest /\ UNCHANGED pos
@@ -201,11 +206,22 @@ DC    == /\ Tag = "DC"
             \/ /\ TV(pos) = ";" /\ pos' = pos + 1
                /\ stk' = (IF ctx = "for" THEN <<>> ELSE << After(ctx, xs, i+1) >>) \o Rest
 \* ---- specifier run: <<"SP", d, storage, quals, funcspec, names, base, nalign>>
-SpEnd(d, st, qu, fs, nm, base, na) ==
-   /\ st = (IF K(d) \in {"Decl","Typedef"} THEN A(d).storage ELSE <<>>)
-   /\ qu = A(d).quals
+\* Named deviations of pycparser's AST that the matcher tolerates (they lose no token the
+\* properties speak of, or are stated by the AST design):
+\*   DevTypenameHasNoStorage   an unnamed parameter is a Typename, which has no storage / funcspec
+\*                             field: such specifiers on an abstract parameter are not recorded
+\*   DevImplicitInt            a declaration without type specifier gets IdentifierType(['int'])
+NoAtomic(q) == SelectSeq(q, LAMBDA x : x # "_Atomic")
+SpEnd(d, st, qu, fs, nm, base, na, at) ==
+   /\ (K(d) \in {"Decl","Typedef"} => st = A(d).storage)
+   \* after an _Atomic(type-name) specifier pycparser appends "_Atomic" at the end of quals
+   /\ IF at = 2 THEN NoAtomic(qu) = NoAtomic(A(d).quals) /\ \E i \in 1..Len(A(d).quals) : A(d).quals[i] = "_Atomic"
+      ELSE qu = A(d).quals
    /\ (K(d) = "Decl" => fs = A(d).funcspec /\ na = Len(C(d).align))
-   /\ LET b == BaseOf(d) IN IF K(b) = "IdentifierType" THEN base = 0 /\ nm = A(b).names ELSE base = b /\ nm = <<>>
+   /\ LET b == BaseOf(d) IN
+      IF K(b) = "IdentifierType"
+      THEN base = 0 /\ (nm = A(b).names \/ (nm = <<>> /\ A(b).names = <<"int">>))
+      ELSE base = b /\ nm = <<>>
 IsSpecTok(nm, base) ==
    \/ TV(pos) \in StorageKw \cup FuncKw \cup QualKw \cup TypeKw \cup {"struct","union","enum","_Alignas"}
    \/ TT(pos) = "TYPEID" /\ nm = <<>> /\ base = 0
@@ -214,11 +230,11 @@ SP    == /\ Tag = "SP"
                 Set(s2, q2, f2, n2, b2, a2) == << <<"SP", d, s2, q2, f2, n2, b2, a2, at>> >>
             IN
             IF at = 1 /\ TV(pos) = ")"
-            THEN /\ pos' = pos+1 /\ stk' = << <<"SP", d, st, Append(qu, "_Atomic"), fs, nm, base, na, 0>> >> \o Rest
-            ELSE IF TV(pos) = "_Atomic" /\ TV(pos+1) = "(" /\ at = 0
+            THEN /\ pos' = pos+1 /\ stk' = << <<"SP", d, st, Append(qu, "_Atomic"), fs, nm, base, na, 2>> >> \o Rest
+            ELSE IF TV(pos) = "_Atomic" /\ TV(pos+1) = "(" /\ at # 1
             THEN /\ pos' = pos+2 /\ stk' = << <<"SP", d, st, qu, fs, nm, base, na, 1>> >> \o Rest
             ELSE IF ~IsSpecTok(nm, base)
-            THEN /\ SpEnd(d, st, qu, fs, nm, base, na) /\ stk' = Rest /\ UNCHANGED pos
+            THEN /\ SpEnd(d, st, qu, fs, nm, base, na, at) /\ stk' = Rest /\ UNCHANGED pos
             ELSE
               \/ /\ TV(pos) \in StorageKw /\ pos' = pos+1 /\ stk' = Set(Append(st, TV(pos)), qu, fs, nm, base, na) \o Rest
               \/ /\ TV(pos) \in FuncKw /\ pos' = pos+1 /\ stk' = Set(st, qu, Append(fs, TV(pos)), nm, base, na) \o Rest
@@ -229,6 +245,8 @@ SP    == /\ Tag = "SP"
               \/ /\ TV(pos) = "_Alignas" /\ K(d) = "Decl" /\ na < Len(C(d).align) /\ pos' = pos+1
                  /\ LET al == C(C(d).align[na+1]).alignment IN
                     stk' = << V("("), (IF K(al) = "Typename" THEN <<"TN", al>> ELSE E(al, 3)), V(")") >> \o Set(st, qu, fs, nm, base, na+1) \o Rest
+              \/ /\ TV(pos) = "_Alignas" /\ K(d) # "Decl" /\ TV(pos+1) = "(" /\ pos' = pos+2
+                 /\ stk' = << <<"SKIPPAR", 1>> >> \o Set(st, qu, fs, nm, base, na) \o Rest
               \/ /\ TV(pos) \in {"struct","union"} /\ nm = <<>> /\ base = 0
                  /\ LET b == BaseOf(d) IN
                     /\ K(b) = (IF TV(pos) = "struct" THEN "Struct" ELSE "Union")
@@ -262,7 +280,9 @@ MemSemi == /\ Tag = "MEM" /\ TV(pos) = ";" /\ pos' = pos+1 /\ UNCHANGED stk    \
 TN    == /\ Tag = "TN" /\ UNCHANGED pos
          /\ LET t == Top[2] IN stk' = << <<"SP", t, <<>>, <<>>, <<>>, <<>>, 0, 0, 0>>, <<"DT", t, Len(ChainFrom(C(t).type))>> >> \o Rest
 \* ---- declarators: <<"DT", d, j>>; chain top-down c[1..k]; the outermost syntactic constructor is c[j]
-DimObl(a) == Vs(A(a).dim_quals, 1) \o (IF C(a).dim = 0 THEN <<>> ELSE IF K(C(a).dim) = "ID" /\ A(C(a).dim).name = "*" /\ TV(pos) # "(" THEN << E(C(a).dim, 2) >> ELSE << E(C(a).dim, 2) >>)
+DimObl(a) == Vs(A(a).dim_quals, 1) \o (IF C(a).dim = 0 THEN <<>>
+                                      ELSE IF K(C(a).dim) = "ID" /\ A(C(a).dim).name = "*" THEN << V("*") >>   \* the [*] form
+                                      ELSE << E(C(a).dim, 2) >>)
 ParamObl(p) == CASE K(p) = "Decl" -> << <<"SP", p, <<>>, <<>>, <<>>, <<>>, 0, 0, 0>>, <<"DT", p, Len(ChainFrom(C(p).type))>>, <<"ENDP", p>> >>
                  [] K(p) = "Typename" -> << <<"TN", p>> >>
                  [] K(p) = "ID" -> << V(A(p).name) >>
@@ -299,6 +319,10 @@ Desig == /\ Tag = "DESIG"
                /\ stk' = << V(A(xs[i]).name), <<"DESIG", xs, i+1>> >> \o Rest
             \/ /\ i <= Len(xs) /\ TV(pos) = "[" /\ pos' = pos+1
                /\ stk' = << E(xs[i], 3), V("]"), <<"DESIG", xs, i+1>> >> \o Rest
+\* tokens of a parenthesised group that has no counterpart in the AST (see DevTypenameHasNoStorage)
+SkipPar == /\ Tag = "SKIPPAR" /\ pos <= NT /\ pos' = pos + 1
+           /\ LET dd == IF TV(pos) = "(" THEN Top[2] + 1 ELSE IF TV(pos) = ")" THEN Top[2] - 1 ELSE Top[2] IN
+              stk' = (IF dd = 0 THEN <<>> ELSE << <<"SKIPPAR", dd>> >>) \o Rest
 Nop   == /\ Tag = "NOP" /\ stk' = Rest /\ UNCHANGED pos
 \* C11 CoordOK: the coordinate names file, line and column of a token inside the node's own span;
 \* for identifiers, constants and declared names exactly the token that spells them
@@ -322,13 +346,15 @@ BackToSep(i, depth) == IF i <= 1 THEN 1
 EndP  == /\ Tag = "ENDP" /\ stk' = Rest /\ UNCHANGED pos
          /\ (~CheckCoords \/ CoordIn(Top[2], BackToSep(pos, 0), pos-1)
              \/ PrintT(<<"COORD", tid, K(Top[2]), Top[2], BackToSep(pos, 0), pos-1>>))
+ExprKinds == {"BinaryOp","Assignment","TernaryOp","UnaryOp","Cast","ArrayRef","FuncCall","StructRef","ID","Constant","CompoundLiteral"}
 End   == /\ Tag = "END" /\ stk' = Rest /\ UNCHANGED pos
+         /\ (~EmitSpans \/ K(Top[2]) \notin ExprKinds \/ PrintT(<<"SPAN", tid, Top[2], Top[3], pos-1>>))
          /\ (~CheckCoords \/ CoordIn(Top[2], Top[3], pos-1)
              \/ PrintT(<<"COORD", tid, K(Top[2]), Top[2], Top[3], pos-1>>))
 
 Next == /\ stk # <<>> /\ UNCHANGED tid
-        /\ (MatchV \/ Paren \/ Dir \/ Str \/ Stmt \/ StmtExpr \/ Sub \/ IL \/ SW \/ Ext \/ KR \/ Decls \/ DC \/ SP \/ Enums \/ Mem \/ MemSemi
-            \/ TN \/ DT \/ DParen \/ InitO \/ Inits \/ Desig \/ Nop \/ End \/ EndP)
+        /\ (MatchV \/ Paren \/ Dir \/ Str \/ Stmt \/ StmtExpr \/ PragmaWrap \/ Sub \/ IL \/ SW \/ Ext \/ KR \/ Decls \/ DC \/ SP \/ Enums \/ Mem \/ MemSemi
+            \/ TN \/ DT \/ DParen \/ InitO \/ Inits \/ Desig \/ Nop \/ SkipPar \/ End \/ EndP)
 Spec == Init /\ [][Next]_vars
 Acc == (stk = <<>> /\ pos = NT + 1) => PrintT(<<"ACC", tid>>)
 \* diagnosis of a rejected trace: the furthest token reached
